@@ -25,39 +25,46 @@ from harness import gen, drive  # noqa: E402
 from harness import c09_rewrites as rw  # noqa: E402
 
 CLAIM = {
-    "text": "Theorems for all inputs: (1) the hydraulic residual of the generated liquid and gas kernels is odd under "
-            "reversal of a branch (flow negated, end pressures exchanged, height difference negated), lambda and Re are "
-            "even in m, the mean pressure is symmetric, the interpolated heights and the section chain of a reversed "
-            "pipe are the mirrored ones; (2) for every n >= 1 the n section residuals of a liquid pipe (length/n, "
-            "loss_coefficient/n, interpolated heights, as the pit holds them) add up to the one-section residual, so a "
-            "solution of the n-section description solves the one-section description; (4) LOAD of a junction is the sum "
-            "of scaled sinks + storages - sources for any row / component order, equals one merged sink, a source is a "
-            "negative sink, an out-of-service row equals its absence; (6) the liquid kernel (all outputs) is invariant "
-            "under a common pressure shift, also from the node columns (PAMB added on both sides). The hand model is tied "
-            "to the code by an exact correspondence of the real pit columns evaluated inside Coq; the kernels are "
-            "regenerated from the source on every run. Every rewrite (reverse any subset, n sections -> 1, n sections -> n "
-            "pipes in series, merge loads, delete disabled elements, shift pressures) is additionally applied to real "
-            "generated networks and the converged results are compared.",
-    "note": "Partial: clause 3 (n sections = n pipes in series) is proved at parameter / residual level "
-            "(series_piece_parameters, sections_eq_series), the node renumbering is observed by the monitor; clause 5 "
-            "(disabled = absent) is a theorem for const-flow rows, cites C04's reduce_eq_delete for the structural pit "
-            "columns of branches / junctions (dependency on coq/C04, coq/C06) and is a monitor otherwise; the step from equal residual systems to equal converged "
-            "results rests on uniqueness of the solution (C08; fails for pumps / compressors in a mesh, whose lift law is "
-            "not monotone - such pairs are counted, not compared) and is observed by the monitors. Thermal results of "
-            "n sections vs 1 section are not claimed (uniform temperature only). Pumps, compressors, controllers and "
-            "heat consumers are directional and excluded from reversal; pi valves are left untouched. "
-            "Jacobian entry df/dm is even only if der_lambda is odd; calc_der_lambda is even (laminar term), which "
-            "changes Newton's path for negative flows, not its fixed points. Monitor tolerances are derived: 1e-8 on p, "
-            "1e-8 + 4*sum of stalled flows on mdot (double roots), 1e-8 + 40*tol_m/min|m| on T. "
-            "Known finding: res_pipe.t_outlet_k of multi-section pipes depends on the declared orientation. "
-            "Axioms: theorems over R use the Coq real-number axioms (ClassicalDedekindReals.sig_forall_dec, sig_not_dec, "
-            "FunctionalExtensionality.functional_extensionality_dep) and Classical_Prop.classic (via the stdlib); the load "
-            "theorems and the chain theorem are closed under the global context.",
-    "technique": "Coq proof over generated kernels + hand model with exact in-Coq correspondence + metamorphic monitors",
+    "text": "Theorems for all inputs (31 in coq/C09/Props.v). Kernel level, regenerated from the source on every run: the "
+            "hydraulic residual of the liquid and gas kernels is odd under reversal of a branch, lambda / Re are even in m, "
+            "the mean pressure is symmetric; the thermal kernel (numpy: all branch outputs for every m; numba: fnt for "
+            "|m| > 1e-10) is unchanged for a branch declared the other way round, with the inlet chosen by the generated "
+            "FROM_NODE_T_SWITCHED rule; the liquid kernel is invariant under a common pressure shift, also from the node "
+            "columns. Pit level (hand model tied by an exact in-Coq correspondence of the real pit columns): heights and "
+            "section chain of a reversed pipe are the mirrored ones; for every n >= 1 the n section residuals add up to the "
+            "one-section residual; section k is a one-section pipe of L/n, zeta/n between interpolated heights and the "
+            "chain is the series chain up to node renaming; LOAD of a junction is the sum of scaled sinks + storages - "
+            "sources for any order, equals one merged sink, a source is a negative sink, a disabled row equals its "
+            "absence. Network level (C08's network model): the reversed net (any subset of branches) is solved by the same "
+            "pressures and the negated flows, the shifted net by the shifted pressures, the merged-load net and the net "
+            "with a branch cut in two by the same solution - and, the liquid Nikuradse law of the generated kernel being "
+            "strictly increasing (C08/KernelMono), these are the only solutions. Every rewrite (reverse, sections -> 1, "
+            "sections -> series, merge loads, switch off / delete elements of every kind, shift pressures) is additionally "
+            "applied to real networks (fixed corpus + generated, hydraulic / sequential / bidirectional) and all result "
+            "columns of the converged runs are compared.",
+    "note": "Proved vs monitored: the network-level theorems are exact-solution statements over C08's network model "
+            "(node balance + branch law p_fn - p_tn + cst = phi(m)); uniqueness holds for strictly increasing laws, proved for "
+            "the liquid pipe / valve law with Nikuradse friction (hypotheses: A, D, eta, rho, k > 0, k <> 3.71 D, L, zeta >= 0, "
+            "L + zeta > 0 - a zeta = 0 valve is excluded), a hypothesis for gases / other friction models; it fails for pumps "
+            "and compressors (no lift for reverse flow: pairs on different branches are counted, not compared). How close two "
+            "approximately converged runs are is observed by the monitors (derived tolerances: 1e-8 on p, 1e-8 + stalled "
+            "flows on mdot, 1e-8 + 40 tol_m / min|m| on T, |X|(3 atol_m/|m| + 1e-7) on flow-derived columns). Monitor only: "
+            "disabled = absent beyond const-flow rows and the structural pit columns cited from C04 (reduce_eq_delete; "
+            "dependency on coq/C04, coq/C06), thermal results of series splits, result extraction (sign / from-to exchange "
+            "of reported columns), gases in sections -> series. Not claimed: thermal results of n sections vs 1 section "
+            "(uniform temperature only). Directional elements (pumps, compressors, controllers, heat consumers) are never "
+            "reversed; pi valves are left untouched. df/dm is even only for odd der_lambda; calc_der_lambda is even "
+            "(Newton path, not fixed points). Known finding: gas v_mean depends on the declared orientation by <= 1e-5 "
+            "relative (isclose fallback of the mean pressure; patch in design_notes/patches/). Axioms: Coq reals "
+            "(ClassicalDedekindReals.sig_forall_dec, sig_not_dec, FunctionalExtensionality.functional_extensionality_dep) "
+            "and Classical_Prop.classic via the stdlib; load, chain and C04-cited theorems are closed under the global context.",
+    "technique": "Coq proof over generated kernels + hand model with exact in-Coq correspondence + C08 uniqueness + "
+                 "metamorphic monitors",
     "design": "DESIGN.md 4/C09 + design_notes/C09.md",
 }
 GEN = kernels.gen_entries(["KHydIncompNp", "KHydIncompNb", "KHydCompNp", "KHydCompNb", "KLambdaNp", "KLambdaNb",
-                           "KPmNp", "KPmNb", "KDerivedNp", "KDerivedNb"]) + [("KCalcLambda", c09_kernels.generate)]
+                           "KPmNp", "KPmNb", "KDerivedNp", "KDerivedNb", "KThermNp", "KThermNb"]) + [
+    ("KCalcLambda", c09_kernels.generate), ("KTSwitch", c09_kernels.generate_tswitch)]
 
 TIGHT = dict(tol_p=1e-10, tol_m=1e-10, iter=100, use_numba=False)
 ATOL = 1e-8
